@@ -138,7 +138,9 @@ fn main() {
             }
             match plan.random {
                 None => {
-                    let prefixes = if plan.shape == Shape::CapSpecial || plan.shape == Shape::Placement {
+                    let prefixes = if plan.shape == Shape::Grid {
+                        vec![Vec::new()]
+                    } else if plan.shape == Shape::CapSpecial || plan.shape == Shape::Placement {
                         let nf = flavours_of(entry).len() as u32;
                         (0..nf).map(|f| vec![(f, nf)]).collect()
                     } else {
@@ -242,5 +244,6 @@ fn all_configs() -> Vec<ConfigEntry> {
     v.extend(cfg4::configs());
     v.extend(cfg5::configs());
     v.extend(cfg6::configs());
+    v.extend(grid::configs());
     v
 }
